@@ -27,6 +27,7 @@ def literals(tier):
            "1e0", "1E0", "1e1", "1e+1", "1e-1", "1E+5", "1e5", "4e4", "1e-3", "1e-7", "1.5e3", "1.5E-3", "12.5e-1", "0.5e1", "1e21", "1e22", "1e-5", "1e-6", "2.5e-7",
            "1e308", "1e-308", "5e-324", "4.9e-324", "2.2250738585072014e-308", "1e-320", "1.7976931348623157E+308", "9.9999999999999e-64", "1e15", "1e16", "1e17", "123e-2", "123e2",
            "1.0e0", "1.00e10", "10e-1", "100e-2", "0.001e3", "0e0", "0e10", "-0e0", "0.0e-5", "1e00", "1e01", "1e+01", "1e-01", "1e007", "000", "007", "-007", "1.", "01.5",
+           "0.25e2", "0.125e3", "-0.75e1", "0.6022e24", "0.12e-30", ".25e2", "0.0123e5", "0.00120e-3", "0.999e0", "0.10e1", "12.34e-5", "120.0e2", "00.5e1",
            "12345678901234567890.123456789", "0.000000000000000000000000000001", "999999999999999999999999999999", "1e-400", "0.1e-400"]
     if tier == "thorough":
         x = 7
